@@ -11,6 +11,8 @@ function genVersion (rng, fi, vi, kind, o) {
   const sites = []
   const add = (l) => { lines.push(l); return lines.length } // returns 1-based line number
   const plain = kind === 'plain'
+  // line 1 of the file is reserved for a site of its own in some versions (filled in below)
+  if (o.firstLine) add('')
   const nHeader = rng.range(0, 10)
   for (let i = 0; i < nHeader; i++) add(rng.chance(2, 3) ? `// header comment ${i} of f${fi} v${vi}: helper code that a transpiler put in front of the module` : '')
   if (rng.chance(1, 3)) add("'use strict'")
@@ -176,6 +178,13 @@ function genVersion (rng, fi, vi, kind, o) {
     // a big module (rewritten content well over 512 KiB): size-dependent paths in the package
     for (let i = 0; i < 9000; i++) add(`var filler${i} = 'filler text that makes this module big ${String(i).padStart(6, '0')}'`)
   }
+  if (o.firstLine) {
+    const k = sites.length
+    const N = `f${fi}v${vi}s${k}`
+    lines[0] = plain ? `function ${N} (x) { return new Error('first line') }` : `function ${N} (x) { return new Error(x + 'first line') }`
+    sites.push({ k, kind: 'first-line', fn: N, line: 1 })
+    exportsList.push(N)
+  }
   add('')
   add(`module.exports = { ${[...new Set(exportsList)].join(', ')} }`)
   const v = { kind, sites, text: '', fi, vi }
@@ -221,6 +230,13 @@ function genVersion (rng, fi, vi, kind, o) {
       // `#` and `?` are ordinary characters of file names
       v.omap.url = [`f${fi}.js.map`, `f${fi}.js.map`, `issue#${fi}.js.map`, `f${fi}.js.map?v=${fi}`][fi % 4 === 3 ? 2 : (fi % 4 === 2 ? 3 : 0)]
       v.omap.mapPath = path.join(path.dirname(o.file), v.omap.url)
+      if (o.staleInline) {
+        // an earlier build step left its inlined map behind, as a trailing comment of some statement;
+        // the reference that counts is the last one
+        const stale = encodeMap({ file: path.basename(o.file), sources: ['../legacy/stale.ts'], names: [], toks: toks.map(t => ({ ...t, src: 0, sl: t.sl + 1000 })) })
+        const at = lines.findIndex(l => l.startsWith('function keep2'))
+        if (at >= 0) lines[at] = lines[at] + ' //# sourceMappingURL=data:application/json;base64,' + Buffer.from(stale).toString('base64')
+      }
       lines.push('//# sourceMappingURL=' + v.omap.url)
     }
   }
